@@ -564,7 +564,7 @@ for _k in ["BUP", "HP"]:
     CHECKS["C19"]["quick"]["tests"].append({"test": "TestC19BigBuffer", "checks": 1, "subchecks": 1, "env": {"VERIF_KINDS": _k}})
 for _k in ["BUP", "HP", "BHP", "DHP", "BDHP"]:
     CHECKS["C19"]["thorough"]["tests"].append({"test": "TestC19BigBuffer", "checks": 2, "subchecks": 1, "once": True, "env": {"VERIF_KINDS": _k}})
-CHECKS["C19"]["rule"] += (" Plus a big buffer: more than 2 GiB buffered at once (BufferSize 2^31 + 64 KiB, a run handed over with Reset), "
+CHECKS["C19"]["rule"] += (" Plus a big buffer: more than 2 GiB buffered at once (BufferSize 2^31 + 128 KiB, a run handed over with Reset), "
                           "skipped with Parse(nil) up to buffer position 2^31 and parsed from there: the run clause behind 2^31 "
                           "(2 GiB of memory per parser; quick: BUP and HP, thorough: all hash parsers).")
 CHECKS["C19"]["rule"] += (" Plus volume: a run of one byte of more than 2^32 bytes goes through one instance of each hash parser, every "
